@@ -196,3 +196,16 @@ def assume_part(ctx, data, part):
         ctx.assume(data[1] >= 128)
     else:
         ctx.assume(data[1] == int(part[1:]))
+
+
+def with_trailing_element(ctx, seed, name):
+    """the seed message with one extra element [context/private, number 0..30, either form, one
+    symbolic content octet] appended after its last top-level component"""
+    from checks import c04
+
+    (root,) = c04.parse(seed, 0, len(seed))
+    t = ctx.int(f"{name}.t", 0x80, 0xFF)
+    ctx.assume(t % 32 <= 30)
+    content = ctx.bytes(f"{name}.c", 1)
+    extra = c04._one(ctx, t) + bytes([1]) + content
+    return c04.encode(root, lambda n: {"append": extra} if n is root else {})
